@@ -188,7 +188,7 @@ def replay(ctx, beh_jsonl, c, name="replay", metrics=True, race=False, timeout=1
     return trace, json.load(open(summ)), d
 
 
-OBS_FILES = ["obs/ObsCache.tla", "obs/ObsCache.cfg"]
+OBS_FILES = ["obs/ObsCache.tla", "obs/ObsCache.cfg", "obs/ObsRef.tla", "obs/ObsRef.cfg"]
 
 
 def split_trace(trace, parts, outdir):
@@ -225,28 +225,104 @@ def split_trace(trace, parts, outdir):
     return paths
 
 
-def observe(ctx, trace, name="observe", timeout=1800, parts=12):
+def observe(ctx, trace, name="observe", timeout=1800, parts=12, modules=("ObsCache",)):
     """Validate a recorded trace with the TLA+ observers (TLC, one process per chunk of traces, in
     parallel); returns (list of bad records with `at` relative to the chunk file and a `chunk` path, summary)."""
     from concurrent.futures import ThreadPoolExecutor
     base = ctx.sub(name)
     chunks = split_trace(trace, parts, base)
 
-    def one(p):
-        d = os.path.join(base, os.path.basename(p)[:-7])
+    def one(job):
+        p, mod = job
+        d = os.path.join(base, os.path.basename(p)[:-7] + "-" + mod)
         os.makedirs(d)
         shutil.copy(p, os.path.join(d, "trace.ndjson"))
-        r = vlib.tlc(ctx, OBS_FILES, "ObsCache", "ObsCache.cfg", workers=1, timeout=timeout, workdir=d, heap="3g")
+        r = vlib.tlc(ctx, OBS_FILES, mod, mod + ".cfg", workers=1, timeout=timeout, workdir=d, heap="3g")
         if not r.ok:
-            raise Inconclusive("observer run failed: %s\n%s" % (r.error or r.violated, r.out[-2500:]))
+            raise Inconclusive("observer %s failed: %s\n%s" % (mod, r.error or r.violated, r.out[-2500:]))
         bad = vlib.obs_result(r.out)[0]
         for b in bad:
             b["chunk"] = p
         return bad, r
 
-    with ThreadPoolExecutor(max_workers=len(chunks)) as ex:
-        res = list(ex.map(one, chunks))
+    jobs = [(p, m) for p in chunks for m in modules]
+    with ThreadPoolExecutor(max_workers=min(len(jobs), 14)) as ex:
+        res = list(ex.map(one, jobs))
     bad = [b for bs, _ in res for b in bs]
     r = res[0][1]
     r.distinct = sum(x.distinct for _, x in res)
     return bad, r
+
+
+# ----------------------------------------------------------------------------------------------
+# free-running concurrent runs (harness/cache/free_test.go.txt)
+
+def _hc(keys, hashfn="IdHash", conffn="NoConf", **kw):
+    c = {"Keys": keys, "HashOf": hashfn, "ConfOf": conffn, "Clients": [1], "BufCap": kw.pop("BufCap", 32),
+         "InitMaxCost": kw.pop("MaxCost", 1000), "CostFn": kw.pop("CostFn", 0), "ItemSize": kw.pop("ItemSize", 0),
+         "D": kw.pop("D", 2), "RefuseVals": kw.pop("RefuseVals", [])}
+    h = harness_cfg(c, kw.pop("metrics", True))
+    h.update(kw)
+    return h
+
+
+def free_scenarios():
+    K6 = [1, 2, 3, 4, 5, 6]
+    return [
+        {"name": "ample-ttl", "cfg": _hc(K6), "goroutines": 4, "opsPer": 250, "clear": False, "maxCostOps": False,
+         "ttls": [1, 2, 5, -1], "costs": [1, 2], "ample": True, "sleep": True},
+        {"name": "tight", "cfg": _hc(K6, MaxCost=6, BufCap=4), "goroutines": 8, "opsPer": 200, "clear": False, "maxCostOps": False,
+         "ttls": [], "costs": [1, 2, 3], "ample": False, "sleep": False},
+        {"name": "tight-clear", "cfg": _hc(K6, MaxCost=5, BufCap=2), "goroutines": 6, "opsPer": 200, "clear": True, "maxCostOps": False,
+         "ttls": [1, 3], "costs": [1, 2], "ample": False, "sleep": True},
+        {"name": "bare", "cfg": _hc(K6, MaxCost=4, BufCap=8, metrics=False, bufferItems=64, numCounters=2, noCallbacks=True),
+         "goroutines": 16, "opsPer": 150, "clear": True, "maxCostOps": True, "ttls": [1, 2], "costs": [1, 2], "ample": False, "sleep": True},
+        {"name": "internal-cost", "cfg": _hc(K6, MaxCost=200, ItemSize=56, CostFn=3, BufCap=16), "goroutines": 4, "opsPer": 200, "clear": False,
+         "maxCostOps": False, "ttls": [2], "costs": [0, 1, 30], "ample": False, "sleep": True},
+        {"name": "collide", "cfg": _hc([1, 2, 3], "CollHash", "CollConf", MaxCost=3, BufCap=4), "goroutines": 4, "opsPer": 200, "clear": False,
+         "maxCostOps": False, "ttls": [], "costs": [1], "ample": False, "sleep": False},
+        {"name": "many", "cfg": _hc(list(range(1, 17)), MaxCost=12, BufCap=32768, bufferItems=64), "goroutines": 64, "opsPer": 40, "clear": False,
+         "maxCostOps": True, "ttls": [1, 4], "costs": [1, 2, 3], "ample": False, "sleep": True},
+        {"name": "refuse", "cfg": _hc(K6, MaxCost=8, BufCap=4, RefuseVals=list(range(3, 4000, 3))), "goroutines": 4, "opsPer": 200, "clear": False,
+         "maxCostOps": False, "ttls": [], "costs": [1, 2], "ample": False, "sleep": False},
+    ]
+
+
+FREE_OVERLAYS = dict(OVERLAYS)
+FREE_OVERLAYS["verif_free_test.go"] = "cache/free_test.go.txt"
+
+
+def free_run(ctx, scenarios, rounds=1, race=True, name="free", timeout=1500):
+    """Run the free-running driver; returns (trace path, summary, go output).  Race reports, crashes
+    and timeouts of the test binary are appended to the trace as events (judged by the observer)."""
+    inp = os.path.join(ctx.scratch, name + "-scenarios.json")
+    with open(inp, "w") as f:
+        json.dump(scenarios, f)
+    rc, out, d = vlib.go_test(ctx, ".", FREE_OVERLAYS, "^TestVerifFree$", env={"VERIF_INPUT": inp, "VERIF_ROUNDS": rounds},
+                              race=race, timeout=timeout, name=name)
+    trace = os.path.join(d, "free.ndjson")
+    if not os.path.exists(trace):
+        raise Inconclusive("free-running driver produced no trace (rc=%s):\n%s" % (rc, out[-3000:]))
+    extra = []
+    if "WARNING: DATA RACE" in out:
+        i = out.index("WARNING: DATA RACE")
+        extra.append({"ev": "Race", "what": out[i:i + 1800]})
+    if rc == 124:
+        extra.append({"ev": "Hang", "what": "the test binary did not finish within %ds of wall-clock time" % timeout})
+    elif rc != 0 and "panic:" in out and "DATA RACE" not in out:
+        i = out.index("panic:")
+        frames = out[i:i + 2500]
+        if "verif_" in frames.split("goroutine", 2)[1] if "goroutine" in frames else False:
+            raise Inconclusive("the harness itself panicked:\n" + frames)
+        extra.append({"ev": "Panic", "what": frames})
+    elif rc != 0 and not extra:
+        if "build failed" in out or "[build failed]" in out or "cannot" in out[:400]:
+            raise Inconclusive("free-running driver failed to build/run (rc=%s):\n%s" % (rc, out[-3000:]))
+        raise Inconclusive("free-running driver failed (rc=%s):\n%s" % (rc, out[-3000:]))
+    if extra:
+        with open(trace, "a") as f:
+            for e in extra:
+                f.write(json.dumps(e) + "\n")
+    sp = os.path.join(d, "free.summary.json")
+    summ = json.load(open(sp)) if os.path.exists(sp) else {"traces": 0, "events": 0}
+    return trace, summ, out
